@@ -126,6 +126,22 @@ def main():
             want = [1.0, 0.0] if norm else [float(n), 0.0]
             if one != want: fail(what='vectorise_one on a long homopolymer', seq="'A' * %d" % n, k=1, norm=norm, expected=want, actual=one)
         del big
+    # an iterator object is consumed exactly once, however it is driven: next() then list(), list() twice, iter() in between
+    for s in ('ACGTTGCAAGTCCATG', 'ACGNNACGTACGTTGAC', 'AC'):
+        b = s.encode()
+        cases += 2
+        g = kt.KmerGenerator(s, 3)
+        want = kmers_spec(b, 3)
+        first = [next(g)] if want else []
+        rest = list(g)
+        again = list(g)
+        if first + rest != want or again != []: fail(what='KmerGenerator driven by next() then list() twice', seq=repr(s), k=3, expected=want[:4], actual=(first + rest)[:4], after_exhaustion=again[:3])
+        mg = kt.MinimiserGenerator(s, 5, 3)
+        wantm = runs_spec(b, 5, 3)
+        firstm = [next(mg)] if wantm else []
+        restm = [x for x in iter(mg)]
+        againm = list(mg)
+        if firstm + restm != wantm or againm != []: fail(what='MinimiserGenerator driven by next() then a for loop, then list()', seq=repr(s), w=5, m=3, expected=wantm[:4], actual=(firstm + restm)[:4], after_exhaustion=againm[:3])
     # iterators stay valid after the Python string is released
     it = kt.KmerGenerator(''.join(['ACGT'] * 50), 3)
     import gc; gc.collect()
